@@ -210,6 +210,8 @@ Section Submit.
     { intros He. apply ebind_inv in He. destruct He as [st [s5 [He1 He2]]].
       destruct st; [apply IH in He2; exact He2|]. inversion He2; subst. eauto. }
     destruct c2; try (apply Hex; exact H).
+    2:{ (* CSuspend: the line is redrawn, the loop goes on *)
+        apply ebind_inv in H. destruct H as [u3 [s5 [_ H]]]. apply IH in H. exact H. }
     (* CQuotedInsert: the next character is inserted, the loop goes on *)
     apply ebind_inv in H. destruct H as [ch [s5 [_ H]]].
     apply ebind_inv in H. destruct H as [u2 [s6 [_ H]]]. apply IH in H. exact H.
